@@ -285,7 +285,7 @@ theorem invS_install (s : St) (t : Nat) (p : Pc) (h : InvS s) (hp : s.pcOf t = s
     show (St.setPc _ t _).pcOf t' = _
     rw [pcOf_setPc _ _ _ _ (by exact ht)]; rfl
   have hdls : (installSt s t).mon.dls = s.mon.dls ++
-      [{ loc := s.locOf t, owner := t, epoch := s.mon.epochOf (s.locOf t), outcome := none }] := rfl
+      [{ loc := s.locOf t, owner := t, epoch := s.mon.epochOf (s.locOf t), minEpoch := s.mon.minEpochOf (s.locOf t), outcome := none }] := rfl
   have htasks : (installSt s t).mon.tasks = s.mon.tasks := rfl
   have hep : ∀ l, (installSt s t).mon.epochOf l = s.mon.epochOf l := fun _ => rfl
   have hst : ∀ x, (installSt s t).stOf x = s.stOf x := fun _ => rfl
@@ -300,7 +300,7 @@ theorem invS_install (s : St) (t : Nat) (p : Pc) (h : InvS s) (hp : s.pcOf t = s
     · simp [hl, PyDict.get?_set_ne _ _ _ _ hl]
   have hnew : ∀ (i : Nat) (x : MDl), (installSt s t).mon.dls[i]? = some x →
       s.mon.dls[i]? = some x ∨ (i = s.mon.dls.length ∧
-        x = { loc := s.locOf t, owner := t, epoch := s.mon.epochOf (s.locOf t), outcome := none }) := by
+        x = { loc := s.locOf t, owner := t, epoch := s.mon.epochOf (s.locOf t), minEpoch := s.mon.minEpochOf (s.locOf t), outcome := none }) := by
     intro i x hx
     rw [hdls, getElem?_concat] at hx
     split at hx
@@ -429,14 +429,14 @@ theorem okRequest_of (s : St) (t : Nat) (p : Pc) (h : InvS s) (hp : s.pcOf t = s
   obtain ⟨i, hi, rfl⟩ := List.getElem_of_mem hd
   have q1 : s.mon.dls[i]? = some s.mon.dls[i] := List.getElem?_eq_getElem hi
   by_cases hcond : (s.mon.dls[i].loc == s.locOf t && s.mon.dls[i].epoch == s.mon.epochOf (s.locOf t)) = true
-  · simp only [hcond, Bool.not_true, Bool.false_or, beq_iff_eq]
-    simp only [Bool.and_eq_true, beq_iff_eq] at hcond
-    by_cases hs : s.mon.statusOf s.mon.dls[i].owner = some .cancelled
-    · exact hs
+  · by_cases hs : s.mon.statusOf s.mon.dls[i].owner = some .cancelled
+    · simp [hs]
     · exfalso
+      simp only [Bool.and_eq_true, beq_iff_eq] at hcond
       have := h.cur i _ q1 (by rw [hcond.1]; exact hcond.2) hs
       rw [hcond.1, hc] at this; simp at this
-  · simp [hcond]
+  · simp only [Bool.not_eq_true] at hcond
+    simp [hcond]
 
 /-- a lookup ends cancelled only after `cancel` was called on it -/
 theorem okCancelled_of (s : St) (t : Nat) (k : TState) (h : InvS s) (hk : s.ts[t]? = some k)
